@@ -492,8 +492,23 @@ func (e *env) loopGetBlock() {
 			if err != nil {
 				return fmt.Errorf("after %d good results: %w", i, err), ""
 			}
+			if e.servedLocally() {
+				return fmt.Errorf("after %d good results: still served locally after Stop returned", i), ""
+			}
 		}
 	})
+}
+
+// servedLocally ends a fetch loop once Stop has returned: a stopped client
+// may keep answering from its caches and database for ever (each call
+// returns; that is the rule), so "until an error" is no end for the loop.
+func (e *env) servedLocally() bool {
+	select {
+	case <-e.stopReturned:
+		return true
+	default:
+		return false
+	}
 }
 
 func (e *env) loopGetCFilter() {
@@ -508,6 +523,9 @@ func (e *env) loopGetCFilter() {
 			}
 			if err != nil {
 				return fmt.Errorf("after %d good results: %w", i, err), ""
+			}
+			if e.servedLocally() {
+				return fmt.Errorf("after %d good results: still served locally after Stop returned", i), ""
 			}
 		}
 	})
